@@ -250,7 +250,9 @@ pub fn repo_level(seed: u64, read_data_check: bool) -> String {
             4 => {
                 what = "prune";
                 // repack everything that can be repacked: reads data packs from the cold store
-                let popts = PruneOptions::default().repack_all(rng.chance(1, 2)).instant_delete(true);
+                // (on a hot/cold repository `repack_cacheable_only` defaults to true: data packs would never be repacked and
+                // the cold store never read; switch it off in most runs)
+                let popts = PruneOptions::default().repack_all(rng.chance(2, 3)).instant_delete(true).repack_cacheable_only(!rng.chance(3, 4));
                 let Ok(plan) = repo.prune_plan(&popts) else { return format!("oracle-fail:prune-plan-step{step}") };
                 cold.inner.lock().unwrap().warm.clear();
                 if repo.prune(&popts, plan).is_err() {
